@@ -46,6 +46,8 @@ def run(ctx, rep):
     rep.rule("R10-PANIC-OPT", "no unreviewed panic site is reachable from aiken_optimize_and_intern (optimiser + constant folder)", floor=30)
     rep.rule("R10-NARROW", "every unwrap of a narrowing conversion (BigInt -> machine integer) in a builtin's call arm is preceded by a range test with early return on the converted value or an ancestor, a bounding definition, or a cost_as_size bound in the same builtin's costing arm", floor=12)
     rep.rule("R10-COUNTER", "profiling array of the debug machine has a slot for every builtin discriminant and step kind", floor=2)
+    rep.rule("R10-HOMOG", "mkCons admits an element only when its full type equals the list's element type (derived equality on Type): later arms discharge `unreachable!` on that invariant", floor=3)
+    rep.guarded("R10-HOMOG", lambda: homog(ctx, rep))
     rep.guarded("R10-NARROW", lambda: narrow(ctx, rep))
     rep.guarded("R10-COUNTER", lambda: counter(ctx, rep))
     # two table rules owned by C04 / C02 discharge panic sites of this audit (the any_constructor unwrap of UnConstrData, the
@@ -55,11 +57,64 @@ def run(ctx, rep):
     rep.guarded("R04-TAGS", lambda: c04.r_tags(ctx.shape, rep))
     rep.rule("R02-FOLD", "every value-dependent failure exit of a foldable builtin is excluded by a guard of is_error_safe (discharges the constant folder's result().unwrap())", floor=60)
     rep.guarded("R02-FOLD", lambda: c02.r_fold(ctx.shape, rep, btab.BuiltinTables(ctx.shape)))
+    rep.rule("R10-BIGINTSITE", "no reader of a Data integer handles the 64-bit form only and aborts on the rest (shared with C04)", floor=2)
+    rep.guarded("R10-BIGINTSITE", lambda: c04.r_bigintsites(ctx.shape, rep, "R10-BIGINTSITE"))
     secs = {}
     rep.guarded("R10-PANIC-EVAL", lambda: secs.update(panic_sections(fl)))
     if "C10-eval" in secs:
         rep.guarded("R10-PANIC-EVAL", lambda: panic_audit.audit(rep, "R10-PANIC-EVAL", fl, secs["C10-eval"][0], "C10-eval", li, stop=secs["C10-eval"][1], floor_sites=600, describe="Machine::run, Program::eval*, Machine::new*, value_as_term"))
         rep.guarded("R10-PANIC-OPT", lambda: panic_audit.audit(rep, "R10-PANIC-OPT", fl, secs["C10-optimize"][0], "C10-optimize", li, stop=secs["C10-optimize"][1], floor_sites=100, describe="aiken_optimize_and_intern, stopping at the evaluator"))
+
+
+# ---------------------------------------------------------------------------------------------------------
+# R10-HOMOG: list constants stay homogeneous — the one builtin that joins an independent element to a list compares full types
+# ---------------------------------------------------------------------------------------------------------
+def homog(ctx, rep):
+    """A ProtoList carries one element type and the evaluator's later arms (mapData, unListData results, equalsData, the
+    serialiser, the shrinker's typed_list_convert_arg) match on elements with `unreachable!` / unwrap on anything else.
+    Parsing and decoding build lists from one type; mkCons is the only builtin joining an element of independent origin
+    to a list, so its test is what keeps the invariant at run time: it must compare the list's element type with
+    Type::from(element) by (derived, structural) equality and fail with an Err otherwise."""
+    sh = ctx.shape
+    t = btab.BuiltinTables(sh)
+    arm = t.call.get("MkCons")
+    if arm is None:
+        raise AnchorMissing("MkCons arm of DefaultFunction::call")
+    rep.touched(btab.RT, "DefaultFunction::call#MkCons")
+    ty = find_enum(sh.file("crates/uplc/src/ast.rs"), "Type")
+    der = ",".join(a for a in ty["attrs"] if a.startswith("derive("))
+    manual = [i for i in find_impls(sh.file("crates/uplc/src/ast.rs"), "Type", any_trait=True) if last(i.get("trait") or "") == "PartialEq"]
+    rep.check("PartialEq" in der and not manual, "R10-HOMOG", "Type#derived-equality", sh.loc("crates/uplc/src/ast.rs", ty), "uplc::ast::Type must compare structurally (derive(PartialEq), no manual impl): found %s, %d manual impl(s)" % (der, len(manual)))
+    # the list's type binding: first component of the tuple bound from unwrap_list()
+    lty = None
+    for n in walk(arm["body"]):
+        if n["k"] == "Local" and n.get("init") is not None and any(c["k"] == "MethodCall" and c["m"] == "unwrap_list" for c in walk(n["init"])):
+            p = n["pat"]
+            if p["k"] in ("PTuple", "Tuple") and p["elems"] and p["elems"][0]["k"] == "Ident":
+                lty = p["elems"][0]["name"]
+    # locals defined as Type::from(..)
+    tlocals = {n["pat"]["name"] for n in walk(arm["body"]) if n["k"] == "Local" and n["pat"]["k"] == "Ident" and n.get("init") is not None and any(c["k"] == "Call" and call_name(c) in ("Type::from", "from") and "Type" in sh.nsrc(btab.RT, c) for c in walk(n["init"]))}
+
+    def is_elem_type(e):
+        return any((c["k"] == "Call" and sh.nsrc(btab.RT, c["f"]).endswith("Type::from")) or (c["k"] == "Path" and c["p"] in tlocals) for c in walk(e))
+
+    def is_list_type(e):
+        return any(c["k"] == "Path" and c["p"] == lty for c in walk(e))
+
+    tests = []
+    for n in walk(arm["body"]):
+        if n["k"] == "If" and n["cond"]["k"] == "Binary" and n["cond"]["op"] in ("!=", "=="):
+            c = n["cond"]
+            if (is_list_type(c["l"]) and is_elem_type(c["r"])) or (is_list_type(c["r"]) and is_elem_type(c["l"])):
+                shallow = [sh.nsrc(btab.RT, x["f"]) for side in (c["l"], c["r"]) for x in walk(side) if x["k"] == "Call" and not sh.nsrc(btab.RT, x["f"]).endswith("Type::from")]
+                shallow += [x["m"] for side in (c["l"], c["r"]) for x in walk(side) if x["k"] == "MethodCall" and x["m"] not in ("clone", "as_ref", "borrow", "deref")]
+                fail_branch = n["then"] if c["op"] == "!=" else n.get("else")
+                errs = [x for x in walk(fail_branch)] if fail_branch else []
+                returns_err = any(x["k"] == "Call" and call_name(x) == "Err" for x in errs)
+                tests.append((n, shallow, returns_err))
+    rep.check(lty is not None and len(tests) == 1, "R10-HOMOG", "MkCons#type-test-present", sh.loc(btab.RT, arm), "the MkCons arm must compare the list's element type (bound from unwrap_list) with Type::from(element): %d such test(s) found" % len(tests), sample={"list_type_binding": lty})
+    for n, shallow, returns_err in tests:
+        rep.check(not shallow and returns_err, "R10-HOMOG", "MkCons#full-type-equality", sh.loc(btab.RT, n), "mkCons's element/list type test must be a structural comparison of the two whole types failing with Err (projections applied before comparing: %s; Err on mismatch: %s): comparing less admits e.g. an integer list consed onto a list of data lists, and a later builtin's `unreachable!` aborts the process" % (shallow, returns_err), sample={"projections": shallow})
 
 
 # ---------------------------------------------------------------------------------------------------------
